@@ -11,6 +11,8 @@
   in every commutative ring, and an IEEE-exact law.)
 -/
 import LbfgsbVerif.Proofs.MemCurv
+import LbfgsbVerif.Proofs.C11
+import Mathlib.Algebra.Order.Field.Rat
 
 namespace Lbfgsb.C13
 open Lbfgsb
@@ -29,4 +31,41 @@ theorem redefinition_pairs_curvature (u : User α ε) (o : Oracles α δ) (c : C
       X ≠ [] ∧ PairsOk c.epsSY X G ∧ X.length ≤ c.maxcor + 1 :=
   minimize_memC u o hu c hsym hck r s h
 
+end Lbfgsb.C13
+
+/-! ### Non-vacuity (ℚ): f(x) = ½|x|² on [−2,2]², an update function that rescales the stored gradients,
+kernels that propose the minimiser and a stepper that accepts the unit step: the run performs
+iterations and terminates normally, and the hypotheses of the theorem hold (`hsym` by
+`curv_test_symmetric`, the update function preserves the number of gradients). -/
+namespace Lbfgsb.C13
+open Lbfgsb
+section nonvacuous
+attribute [local instance] fieldFloatLike
+
+def exUser : User ℚ Unit :=
+  { F := fun x => .ok (dot x x / 2), Gr := fun x => .ok x, fdPts := fun _ _ => [], fdComb := fun x _ _ => x,
+    callback := fun _ => .ok false,
+    update := fun i => .ok ⟨i.f0, i.f0Old, i.grad, i.G.map fun g => smul 2 g⟩,
+    scaler := fun _ _ => .ok 1, ftargetFn := fun _ => .ok 0, gtolFn := fun _ => .ok 0 }
+
+def exOracles : Oracles ℚ Unit :=
+  { xbar := fun x _ _ => smul (1 / 2) x, dcNew := fun _ _ _ _ _ _ => (),
+    dcIter := fun _ stp _ _ task => match task with | .start => ((), 1, .fg) | _ => ((), stp, .conv) }
+
+def exCfg : Cfg ℚ :=
+  { x0 := [1, 1], lb := [-2, -2], ub := [2, 2], mode := .callable, maxcor := 2, maxiter := 3, maxfun := 100, maxls := 20,
+    ftol := 0, gtol := .const (1 / 1000), ftarget := none, maxStep := 100, ftolLS := 1 / 1000, gtolLS := 9 / 10, xtolLS := 1 / 10,
+    epsSY := 0, hasCallback := true, hasUpdate := true, hasScaler := false, checkpoint := none }
+
+/-- the run terminates normally, after three iterations, with two pairs -/
+example : (match minimize exUser exOracles exCfg with
+    | .ok (r, s) => decide (r.nit = 3 ∧ r.sk.length = 2 ∧ s.cbStates.length = 3) | .error _ => false) = true := by
+  decide +kernel
+
+example : ∀ (i : UpdIn ℚ) r, exUser.update i = .ok r → r.G.length = i.G.length := by
+  intro i r h
+  simp only [exUser, Except.ok.injEq] at h
+  rw [← h]; simp
+
+end nonvacuous
 end Lbfgsb.C13
